@@ -229,6 +229,9 @@ class RefDatafit:
             return np.exp(z) / n
         if k == "gamma":
             return y * np.exp(-z) / n
+        if k == "sqrtquad":
+            # diagonal upper bound of I/|r| - r r^T/|r|^3
+            return np.full(n, 1.0 / norm(y - z))
         if k == "cox":
             # documented diagonal upper bound: diag(e^u) diag(M^T s/(M e^u)) / n = raw gradient + s / n
             return cox_rawgrad(y, z, p.get("efron", False)) + np.asarray(y[:, 1], float) / n
